@@ -166,7 +166,8 @@ ValueEnd(b, p) == LET r == Decode(b, p) IN IF r.ok THEN r.p ELSE 0
 
 -----------------------------------------------------------------------------
 (* Encoder.  `w` is the width policy: 0 = most compact legal format, k > 0 =   *)
-(* k formats wider than the most compact one (capped at the widest).  All     *)
+(* k formats wider than the most compact one (capped at the widest); 5 = like *)
+(* 4 for headers, and non-negative integers in the int8..int64 family.  All   *)
 (* encodings produced are legal MessagePack; Enc(v, 0) is the unique shortest.*)
 
 \* number of significant bytes of a magnitude (0 for zero)
@@ -233,6 +234,9 @@ Enc(v, w) ==
   ELSE IF t = "bool" THEN IF v[2] THEN <<195>> ELSE <<194>>
   ELSE IF t = "int" THEN
        IF v[2] THEN SIntEnc(v[3], Min2(SIntRank(v[3]) + w, 4))
+       ELSE IF w = 5 /\ PosFitsSigned(v[3], 8) THEN       \* width policy 5: non-negative integers travel in the signed family
+            (IF PosFitsSigned(v[3], 1) THEN <<208>> \o Low(v[3], 1) ELSE IF PosFitsSigned(v[3], 2) THEN <<209>> \o Low(v[3], 2)
+             ELSE IF PosFitsSigned(v[3], 4) THEN <<210>> \o Low(v[3], 4) ELSE <<211>> \o v[3])
        ELSE UIntEnc(v[3], Min2(UIntRank(v[3]) + w, 4))
   ELSE IF t = "f32" THEN <<202>> \o v[2]
   ELSE IF t = "f64" THEN <<203>> \o v[2]
